@@ -66,7 +66,8 @@ def _q(s):
 
 
 def _widen_loop_frames(text, names):
-    """Prepend `names` to the assigns clause of every LOOP contract (an assigns clause followed by a loop invariant)."""
+    """Prepend `names` to the assigns clause of every LOOP contract (an assigns clause followed by a loop invariant) that lies in
+    the scope of the name's declaration (declared textually before the loop, in the same lifted function)."""
     out, pos = [], 0
     for m in re.finditer(r"__CPROVER_assigns\(", text):
         if m.start() < pos:
@@ -74,15 +75,44 @@ def _widen_loop_frames(text, names):
         cl = L.match_close(text, m.end() - 1)
         rest = text[cl + 1:cl + 400]
         if re.match(r"(\s|\\\n)*__CPROVER_loop_invariant", rest):
+            fstart = text.rfind("\n#line ", 0, m.start())
+            before = text[max(fstart, 0):m.start()]
+            add = [n for n in names if re.search(r"(?:\w|\*)[\s\*]+%s\s*(?:=[^=]|;)" % re.escape(n), before)]
             inner = text[m.end():cl]
             out.append(text[pos:m.end()])
-            out.append(", ".join(names) + (", " if inner.strip() else "") + inner)
+            out.append(", ".join(add) + (", " if add and inner.strip() else "") + inner)
             pos = cl
     out.append(text[pos:])
     return "".join(out)
 
 
-def render(unit, specdir, outdir, widen=()):
+def _loop_assigns_spans(text):
+    spans = []
+    for m in re.finditer(r"__CPROVER_assigns\(", text):
+        cl = L.match_close(text, m.end() - 1)
+        if re.match(r"(\s|\\\n)*__CPROVER_loop_invariant", text[cl + 1:cl + 400]):
+            spans.append((m.end(), cl))
+    return spans
+
+
+def _frame_names(text):
+    """simple identifiers named in loop assigns clauses"""
+    names = []
+    for a, b in _loop_assigns_spans(text):
+        names += [x.strip() for x in L.split_args(text[a:b]) if re.fullmatch(r"\s*[A-Za-z_]\w*\s*", x)]
+    return sorted(set(names))
+
+
+def _drop_frame_names(text, drop):
+    out, pos = [], 0
+    for a, b in _loop_assigns_spans(text):
+        keep = [x.strip() for x in L.split_args(text[a:b]) if x.strip() not in drop]
+        out.append(text[pos:a]); out.append(", ".join(keep)); pos = b
+    out.append(text[pos:])
+    return "".join(out)
+
+
+def render(unit, specdir, outdir, widen=(), drop=()):
     """Produce the C translation unit of `unit`; returns (path, info)."""
     tpath = os.path.join(specdir, unit.template)
     tpl = open(tpath).read()
@@ -114,6 +144,9 @@ def render(unit, specdir, outdir, widen=()):
         if ln.startswith('#line 1 "vx_after_'):
             lines[i] = '#line %d "%s"' % (i + 2, path)
     text = "\n".join(lines)
+    info["frame_names"] = _frame_names(text)
+    if drop:
+        text = _drop_frame_names(text, set(drop))
     if widen:
         text = _widen_loop_frames(text, list(widen))
     with open(path, "w") as f:
@@ -127,9 +160,16 @@ def verify_unit(unit, prop, specdir, outroot, tier, budget):
     """verify one unit; if the ONLY failed obligations are loop-frame checks on locals of the lifted text (a refactoring introduced
     a loop-carried local, e.g. `for (T* next = 0; ...)`), those locals are added to the loop contracts' assigns clauses and the unit
     is verified again: havocking a variable the invariants do not mention only weakens what is known, so this is sound."""
-    widen = []
-    for _round in range(3):
-        res = _verify_unit_once(unit, prop, specdir, outroot, tier, budget, tuple(widen))
+    widen, drop = [], []
+    for _round in range(4):
+        res = _verify_unit_once(unit, prop, specdir, outroot, tier, budget, tuple(widen), tuple(drop))
+        if res["status"] == "undecided":
+            # a loop frame names a local that no longer exists (renamed by a refactoring): drop the stale name and try again
+            m = re.search(r"failed to find symbol '(\w+)'", res.get("reason", ""))
+            if m and m.group(1) not in drop and m.group(1) in res.get("_frame_names", ()):
+                drop.append(m.group(1))
+                continue
+            break
         if res["status"] != "failed":
             break
         names = []
@@ -146,10 +186,12 @@ def verify_unit(unit, prop, specdir, outroot, tier, budget):
         widen += sorted(set(names))
     if widen:
         res["loop_frames_widened_by"] = list(widen)
+    if drop:
+        res["stale_loop_frame_names_dropped"] = list(drop)
     return res
 
 
-def _verify_unit_once(unit, prop, specdir, outroot, tier, budget, widen=()):
+def _verify_unit_once(unit, prop, specdir, outroot, tier, budget, widen=(), drop=()):
     """Returns a result dict; never raises (errors become status 'undecided')."""
     t0 = time.time()
     res = {"unit": unit.name, "kind": unit.kind, "status": "undecided", "reason": "", "obligations": 0,
@@ -159,8 +201,9 @@ def _verify_unit_once(unit, prop, specdir, outroot, tier, budget, widen=()):
     outdir = os.path.join(outroot, unit.name)
     try:
         shutil.rmtree(outdir, ignore_errors=True)
-        cpath, info = render(unit, specdir, outdir, widen)
+        cpath, info = render(unit, specdir, outdir, widen, drop)
         res["lifted"] = info["lifted"]
+        res["_frame_names"] = info.get("frame_names", [])
         res["c_file"] = cpath
     except L.LiftError as e:
         res["reason"] = "extraction failure: %s" % e
